@@ -168,6 +168,8 @@ pub enum Op {
     SetExit(usize),
     Merge,
     Append(usize),
+    /// the current graph becomes the ARGUMENT of append: receiver 0 = an empty graph, r >= 1 = library graph r-1
+    AppendTo(usize),
     Insert(usize),
     Remove(usize, bool), // first / last
     BlockAppend(usize, usize),
@@ -276,6 +278,10 @@ impl Subject for Sub {
         for &i in &libs {
             v.push(Op::Append(i));
         }
+        v.push(Op::AppendTo(0));
+        if self.level >= 1 {
+            v.push(Op::AppendTo(2));
+        }
         for &i in &libs {
             v.push(Op::Insert(i));
         }
@@ -311,6 +317,11 @@ impl Subject for Sub {
                 Op::SetExit(b) => c.set_exit(*b).map_err(|e| e.to_string())?,
                 Op::Merge => c.merge().map_err(|e| e.to_string())?,
                 Op::Append(i) => c.append(&library(*i)).map_err(|e| e.to_string())?,
+                Op::AppendTo(r) => {
+                    let mut recv = if *r == 0 { Cfg::new() } else { library(*r - 1) };
+                    recv.append(c).map_err(|e| e.to_string())?;
+                    *c = recv;
+                }
                 Op::Insert(i) => {
                     c.insert(&library(*i)).map_err(|e| e.to_string())?;
                 }
@@ -343,6 +354,7 @@ impl Subject for Sub {
                     Op::Remove(b, _) => !exists(&before, *b) || before.block(*b).map(|x| x.is_empty()).unwrap_or(true),
                     Op::Uncond(h, t) | Op::Cond(h, t, _) => !exists(&before, *h) || !exists(&before, *t) || before.edge(*h, *t).is_ok(),
                     Op::Append(_) => !before.blocks().is_empty() && (before.entry().is_none() || before.exit().is_none()),
+                    Op::AppendTo(_) => before.entry().is_none() || before.exit().is_none(),
                     _ => false,
                 };
                 if !expected_err {
@@ -379,8 +391,16 @@ impl Subject for Sub {
                 }
                 acc.count("merge_transitions_checked", 1);
             }
-            Op::Append(i) => {
-                let lib = library(*i);
+            Op::Append(_) | Op::AppendTo(_) => {
+                // `first` then `second`
+                let (first, second) = match op {
+                    Op::Append(i) => (before.clone(), library(*i)),
+                    Op::AppendTo(0) => (Cfg::new(), before.clone()),
+                    Op::AppendTo(r) => (library(*r - 1), before.clone()),
+                    _ => unreachable!(),
+                };
+                let before = first;
+                let lib = second;
                 let (tl, _) = traces(&lib, None);
                 let expect: BTreeSet<Vec<String>> = if before.blocks().is_empty() {
                     tl
@@ -438,6 +458,7 @@ impl Subject for Sub {
             Op::SetExit(b) => json!(["set_exit", b]),
             Op::Merge => json!(["merge"]),
             Op::Append(i) => json!(["append", i]),
+            Op::AppendTo(r) => json!(["append_to", r]),
             Op::Insert(i) => json!(["insert", i]),
             Op::Remove(b, f) => json!(["remove_instruction", b, f]),
             Op::BlockAppend(b, i) => json!(["block_append", b, i]),
@@ -457,6 +478,7 @@ fn op_parse(v: &Value) -> Op {
         "set_exit" => Op::SetExit(n(1)),
         "merge" => Op::Merge,
         "append" => Op::Append(n(1)),
+        "append_to" => Op::AppendTo(n(1)),
         "insert" => Op::Insert(n(1)),
         "remove_instruction" => Op::Remove(n(1), v[2].as_bool().unwrap()),
         _ => Op::BlockAppend(n(1), n(2)),
